@@ -1,7 +1,7 @@
 #!/bin/bash
 # tools/seedtest2.sh <property> <label> [tier] [extra ./check args...]
 #   like seedtest.sh but works on a scratch worktree of /repo (VERIF_REPO), so /repo itself is never touched
-id=$1; lab=$2; tier=${3:-quick}; shift; shift; shift
+id=$1; lab=$2; tier=${3:-quick}; shift; shift; shift; EXTRA="$*"
 src=${SEED_SRC:-/tmp/seed}/$id/seed_out
 dst=/verif/seeded/$id-$lab
 wt=/tmp/seedrepo_${id}_${lab}
@@ -26,6 +26,6 @@ python3 - <<PY
 import json
 json.dump({"property": "$id", "label": "$lab", "tests_with_change": """$tests""", "demo_exit_clean": $demo_clean, "demo_exit_with_change": $demo_mut,
            "check_tier": "$tier", "check_exit": $rc, "violation_lines": $viol, "first_violation": """$first""".strip(),
-           "ran": "scratch worktree of /repo with patch.diff applied; pytest (existing suite); demo.py; VERIF_REPO=<worktree> ./check $id --tier $tier; worktree removed"},
+           "ran": "scratch worktree of /repo with patch.diff applied; pytest (existing suite); demo.py; VERIF_REPO=<worktree> ./check $id --tier $tier $EXTRA; worktree removed"},
           open("$dst/meta.json", "w"), indent=1)
 PY
